@@ -555,3 +555,139 @@ def sanitised_overflow(imports, defs, case, enclosure_of_case, observed):
         return beyond_binary64(enclosure_bounds(imports, defs, f"(let c := {case} in {enclosure_of_case})"))
     except Exception:
         return False
+
+
+# ---------------------------------------------------------------------------------------------------------------------------
+# Formulas "as the user wrote them": API constructions paired with an independent NumPy function of the element values.
+# Element names are computed here (range(n)[slice]), never read back from the views, so a view or a reduction that
+# looks at the wrong elements - or a shortcut that takes two different views for the same one - disagrees with the reference.
+def written_catalogue(rng, tag="w"):
+    """Yields (label, thunk building a scalar optyx expression, ref(vals) -> float, element names involved)."""
+    from optyx import VectorVariable, MatrixVariable
+    from optyx.core.matrices import quadratic_form, frobenius_norm
+    from optyx.core.vectors import norm as vnorm
+    from optyx.core import functions as F
+    n = rng.choice([4, 5, 6])
+    rows, cols = rng.choice([(2, 3), (3, 4), (3, 3)])
+    zname, Xname = tag + rng.choice(["z", "x", "flow2"]), tag + rng.choice(["X", "M"])
+    z = VectorVariable(zname, n)
+    X = MatrixVariable(Xname, rows, cols)
+    S = MatrixVariable(tag + "S", 3, 3, symmetric=True)
+
+    def arr(names):
+        return lambda vals: np.array([vals[t] for t in names], dtype=float)
+
+    views = []          # (text, view object, element names)
+    sl = [(None, None, None), (0, n, None), (None, None, -1), (0, 4, 2), (0, 4, 3), (1, 4, None), (0, 3, None), (1, n, 2),
+          (2, None, None), (None, 3, None), (n - 1, 0, -1), (0, n, 2), (1, n, None), (0, n - 1, None), (None, None, -2), (0, 4, None),
+          (1, 5, 3), (1, 5, 2)]
+    for a, b, s in sl:
+        idx = list(range(n))[slice(a, b, s)]
+        if idx:
+            views.append((f"{zname}[{a}:{b}:{s}]", (lambda a=a, b=b, s=s: z[slice(a, b, s)]), [f"{zname}[{i}]" for i in idx]))
+    for i in range(rows):
+        for a, b, s in [(None, None, None), (0, 2, None), (1, 3, None), (0, cols, 2), (None, None, -1), (1, cols, None), (0, cols - 1, None)]:
+            idx = list(range(cols))[slice(a, b, s)]
+            if idx:
+                views.append((f"{Xname}[{i},{a}:{b}:{s}]", (lambda i=i, a=a, b=b, s=s: X[i, slice(a, b, s)]), [f"{Xname}[{i},{j}]" for j in idx]))
+    for j in range(cols):
+        for a, b, s in [(None, None, None), (0, 2, None), (1, 3, None), (None, None, -1)]:
+            idx = list(range(rows))[slice(a, b, s)]
+            if idx:
+                views.append((f"{Xname}[{a}:{b}:{s},{j}]", (lambda j=j, a=a, b=b, s=s: X[slice(a, b, s), j]), [f"{Xname}[{i},{j}]" for i in idx]))
+    for j in range(rows):
+        views.append((f"{Xname}.T[:,{j}]", (lambda j=j: X.T[:, j]), [f"{Xname}[{j},{i}]" for i in range(cols)]))
+    sym = lambda i, j: f"{tag}S[{min(i, j)},{max(i, j)}]"
+    views.append((f"{tag}S.diagonal()", lambda: S.diagonal(), [sym(i, i) for i in range(3)]))
+    for i in range(3):
+        views.append((f"{tag}S[{i},:]", (lambda i=i: S[i, :]), [sym(i, j) for j in range(3)]))
+        views.append((f"{tag}S[:,{i}]", (lambda i=i: S[:, i]), [sym(j, i) for j in range(3)]))
+
+    def Q(k):
+        return np.array([[float(1 + 2 * i - j + (3 if i > j else 0)) for j in range(k)] for i in range(k)])
+
+    def cf(k, flip=False):
+        c = np.array([0.5 * (t + 1) * (-1 if t == 1 else 1) for t in range(k)])
+        return c[::-1] if flip else c
+
+    out = []
+    pairs = [(p, q) for p in views for q in views if len(p[2]) == len(q[2]) and p is not q and len(p[2]) >= 2]
+    rng.shuffle(pairs)
+    # two different views of ONE parent (whose generated names often coincide) are the likeliest to be taken for each other
+    akin = [pq for pq in pairs if set(pq[0][2]) & set(pq[1][2])]
+    other = [pq for pq in pairs if not (set(pq[0][2]) & set(pq[1][2]))]
+    for (tu, bu, nu), (tv, bv, nv) in akin[:50] + other[:20]:
+        k = len(nu)
+        U, V = arr(nu), arr(nv)
+        form = rng.choice([0, 0, 0, 1, 1, 2, 3, 4, 5, 6, 7, 8])
+        if form == 0:
+            out.append((f"{tu}.dot(Q @ {tv})", (lambda bu=bu, bv=bv, k=k: bu().dot(Q(k) @ bv())), (lambda vals, U=U, V=V, k=k: float(U(vals) @ Q(k) @ V(vals))), nu + nv))
+        elif form == 1:
+            out.append((f"{tu}.dot({tv})", (lambda bu=bu, bv=bv: bu().dot(bv())), (lambda vals, U=U, V=V: float(U(vals) @ V(vals))), nu + nv))
+        elif form == 2:
+            out.append((f"c@{tu} + d@{tv}", (lambda bu=bu, bv=bv, k=k: cf(k) @ bu() + cf(k, True) @ bv()),
+                        (lambda vals, U=U, V=V, k=k: float(cf(k) @ U(vals) + cf(k, True) @ V(vals))), nu + nv))
+        elif form == 3:
+            out.append((f"qf({tu}) + qf({tv})", (lambda bu=bu, bv=bv, k=k: bu().dot(Q(k) @ bu()) + quadratic_form(bv(), Q(k))),
+                        (lambda vals, U=U, V=V, k=k: float(U(vals) @ Q(k) @ U(vals) + V(vals) @ Q(k) @ V(vals))), nu + nv))
+        elif form == 4:
+            out.append((f"({tu}*{tv}).sum()", (lambda bu=bu, bv=bv: (bu() * bv()).sum()), (lambda vals, U=U, V=V: float(np.sum(U(vals) * V(vals)))), nu + nv))
+        elif form == 5:
+            out.append((f"({tu}-{tv}).dot({tu}+{tv})", (lambda bu=bu, bv=bv: (bu() - bv()).dot(bu() + bv())),
+                        (lambda vals, U=U, V=V: float((U(vals) - V(vals)) @ (U(vals) + V(vals)))), nu + nv))
+        elif form == 6:
+            out.append((f"({tu}**2).sum() + ({tv}**3).sum()", (lambda bu=bu, bv=bv: (bu() ** 2).sum() + (bv() ** 3).sum()),
+                        (lambda vals, U=U, V=V: float(np.sum(U(vals) ** 2) + np.sum(V(vals) ** 3))), nu + nv))
+        elif form == 7:
+            out.append((f"sin({tu}).sum() * {tv}.sum()", (lambda bu=bu, bv=bv: F.sin(bu()).sum() * bv().sum()),
+                        (lambda vals, U=U, V=V: float(np.sum(np.sin(U(vals))) * np.sum(V(vals)))), nu + nv))
+        else:
+            out.append((f"norm({tu} - 2*{tv})", (lambda bu=bu, bv=bv: vnorm(bu() - 2 * bv())),
+                        (lambda vals, U=U, V=V: float(np.linalg.norm(U(vals) - 2 * V(vals)))), nu + nv))
+    singles = list(views)
+    rng.shuffle(singles)
+    for tu, bu, nu in singles[:24]:
+        k = len(nu)
+        U = arr(nu)
+        form = rng.randrange(7)
+        if form == 0:
+            out.append((f"quadratic_form({tu}, Q)", (lambda bu=bu, k=k: quadratic_form(bu(), Q(k))), (lambda vals, U=U, k=k: float(U(vals) @ Q(k) @ U(vals))), nu))
+        elif form == 1:
+            out.append((f"c @ {tu}", (lambda bu=bu, k=k: cf(k) @ bu()), (lambda vals, U=U, k=k: float(cf(k) @ U(vals))), nu))
+        elif form == 2:
+            out.append((f"{tu} @ c[::-1]", (lambda bu=bu, k=k: bu() @ cf(k, True)), (lambda vals, U=U, k=k: float(U(vals) @ cf(k, True))), nu))
+        elif form == 3:
+            out.append((f"(2*{tu}+1).sum()", (lambda bu=bu: (2 * bu() + 1).sum()), (lambda vals, U=U: float(np.sum(2 * U(vals) + 1))), nu))
+        elif form == 4:
+            out.append((f"norm({tu},1)+norm({tu})", (lambda bu=bu: vnorm(bu(), 1) + vnorm(bu())),
+                        (lambda vals, U=U: float(np.linalg.norm(U(vals), 1) + np.linalg.norm(U(vals)))), nu))
+        elif form == 5:
+            out.append((f"(c - {tu}).dot({tu})", (lambda bu=bu, k=k: (cf(k) - bu()).dot(bu())), (lambda vals, U=U, k=k: float((cf(k) - U(vals)) @ U(vals))), nu))
+        else:
+            out.append((f"exp({tu}).sum() - {tu}.sum()", (lambda bu=bu: F.exp(bu()).sum() - bu().sum()),
+                        (lambda vals, U=U: float(np.sum(np.exp(U(vals))) - np.sum(U(vals)))), nu))
+    # matrices against arrays in every memory layout (the reference indexes logically)
+    Xn = [[f"{Xname}[{i},{j}]" for j in range(cols)] for i in range(rows)]
+    XV = lambda vals: np.array([[vals[t] for t in row] for row in Xn], dtype=float)
+    base = np.array([[float(1 + 3 * i - 2 * j + (i * j) % 3) for j in range(cols)] for i in range(rows)])
+    layouts = [("C", base), ("F", np.asfortranarray(base)), ("T-view", np.ascontiguousarray(base.T).T), ("rows-reversed", base[::-1][::-1].copy()[::-1][::-1]),
+               ("reversed-view", np.ascontiguousarray(base[::-1])[::-1]), ("int", base.astype(np.int64)), ("strided", np.repeat(base, 2, axis=1)[:, ::2])]
+    all_x = [t for row in Xn for t in row]
+    for lname, A in layouts:
+        A0 = np.array(A, dtype=float)
+        mform = rng.randrange(6)
+        if mform == 0:
+            out.append((f"({Xname} * A[{lname}]).sum()", (lambda A=A: (X * A).sum()), (lambda vals, A0=A0: float(np.sum(XV(vals) * A0))), all_x))
+        elif mform == 1:
+            out.append((f"(A[{lname}] * {Xname}).sum()", (lambda A=A: (A * X).sum()), (lambda vals, A0=A0: float(np.sum(A0 * XV(vals)))), all_x))
+        elif mform == 2:
+            out.append((f"frobenius_norm({Xname} - A[{lname}])", (lambda A=A: frobenius_norm(X - A)), (lambda vals, A0=A0: float(np.linalg.norm(XV(vals) - A0))), all_x))
+        elif mform == 3:
+            out.append((f"(({Xname} + A[{lname}]) * {Xname}).sum()", (lambda A=A: ((X + A) * X).sum()), (lambda vals, A0=A0: float(np.sum((XV(vals) + A0) * XV(vals)))), all_x))
+        elif mform == 4:
+            out.append((f"(A[{lname}] - {Xname}).sum() + ({Xname}.T * A.T).sum()", (lambda A=A: (A - X).sum() + (X.T * A.T).sum()),
+                        (lambda vals, A0=A0: float(np.sum(A0 - XV(vals)) + np.sum(XV(vals).T * A0.T))), all_x))
+        else:
+            out.append((f"(({Xname} - A[{lname}]) * ({Xname}.T - A.T).T).sum()", (lambda A=A: ((X - A) * (X.T - A.T).T).sum()),
+                        (lambda vals, A0=A0: float(np.sum((XV(vals) - A0) ** 2))), all_x))
+    return out
